@@ -187,6 +187,18 @@ CHECKS["C20"] = dict(
     note=TB + "; thread scheduling is not controlled, the runtime half has exploration-level assurance only",
 )
 
+CHECKS["C17"] = dict(
+    category="proof",
+    text=("Coq model of wait_for_stack_status/stack_status_callback/formNetwork/leaveNetwork/_list_command/_ensure_network_running with "
+          "callbacks delivered singly or back to back; theorems for every event history of an operation: completion needs an accepted "
+          "command AND the matching status event after the start, in order; the event is observed whether it comes before or after the "
+          "command's reply; refusal / not-joined / timeout raise; a scan returns exactly the results between start and completion, in "
+          "order, none from before; after any history, when no operation is active no listener or callback remains. Tied to the real EZSP "
+          "and ControllerApplication by correspondence over all event orders up to a bound, batches and repeated operations."),
+    design_ref="DESIGN.md section 6 C17",
+    technique="Coq proof (operation invariant over event histories) + model/implementation correspondence in virtual time",
+)
+
 NOT_YET = {}
 
 
